@@ -41,6 +41,7 @@ class Verifier(Executor):
         self.raised = []
         self.paths = 0
         self.incomplete = []  # reasons why an unroll-mode run is not a complete proof
+        self.used_axioms = set()  # axiom schemas (trusted) instantiated by hints of this contract
         self.binding_notes = []  # loop headers that differ from the contract's fingerprint (ordinal binding used)
 
     # ------------------------------------------------------------------ loops
@@ -329,6 +330,13 @@ class Verifier(Executor):
     def apply_hints(self, st, hints, extra_env):
         for h in hints or []:
             node = parse_expr(h)
+            if isinstance(node, ast.Call) and isinstance(node.func, ast.Name) and node.func.id.startswith("axiom_"):
+                # instance of a declared, UNPROVED axiom schema (a macro of the specification layer, listed among the assumptions of the evidence)
+                if node.func.id not in self.contracts.macros or node.func.id not in getattr(self.contracts, "axioms", {}):
+                    raise VerifError(f"undeclared axiom schema: {node.func.id}")
+                self.used_axioms.add(node.func.id)
+                st.assume(self.eval_spec(node, st, extra_env))
+                continue
             if not (isinstance(node, ast.Call) and isinstance(node.func, ast.Name) and node.func.id.startswith("lemma_")):
                 raise VerifError(f"hint is not a lemma instance: {h}")
             st.assume(self.eval_spec(node, st, extra_env))
